@@ -655,14 +655,19 @@ func genC03(t *rapid.T) c03Case {
 		for i, h := range hosts {
 			ip := []string{"162.242.195.82", "50.31.209.229", "::1"}[i]
 			sip := ip
-			if strings.Contains(ip, ":") && sep == ":" && rapid.Bool().Draw(t, "bracket") {
+			// an IPv6 address may be written in brackets in either spelling; the typed value never has them
+			if strings.Contains(ip, ":") && rapid.Bool().Draw(t, "bracket") {
 				sip = "[" + ip + "]"
 			}
 			short = append(short, h+sep+sip)
+			lip := ip
+			if strings.Contains(ip, ":") && rapid.Bool().Draw(t, "bracket-long") {
+				lip = "[" + ip + "]"
+			}
 			if rapid.Bool().Draw(t, "asList") {
-				long[h] = []any{ip}
+				long[h] = []any{lip}
 			} else {
-				long[h] = ip
+				long[h] = lip
 			}
 		}
 		p.Attr = "extra_hosts:" + where
